@@ -15,7 +15,7 @@ TIERS = {"quick": {"shards": 8, "cases": 350}, "thorough": {"shards": 16, "cases
 
 def FLOORS(tier):
     q = tier == "quick"
-    f = {"trees-checked": 2000 if q else 10 ** 5, "typed-leaf-gates": 200 if q else 5000, "arity>=4": 100 if q else 3000,
+    f = {"trees-checked": 1500 if q else 10 ** 5, "typed-leaf-gates": 200 if q else 5000, "arity>=4": 100 if q else 3000,
          "depth>=3": 200 if q else 5000, "model-leaf-snapshots": 300}
     for g in _sat.ALL:
         f["root:" + g] = 60 if q else 2000
